@@ -221,9 +221,9 @@ class Main(Suite):
     name = "main"
     go_cmd = "c16"
     coq_imports = "From GoGit Require Import Model.RefCAS."
-    quick_n = 700
-    thorough_n = 12000
-    coq_chunk = 200
+    quick_n = 480
+    thorough_n = 6000
+    coq_chunk = 60
 
     def __init__(self):
         self.agree = set()
@@ -311,8 +311,21 @@ class Main(Suite):
         return None
 
     def extra(self, ctx, cases, impl, model):
-        lin = sum(1 for c in cases if c["id"] in impl)
-        return {"histories_checked": lin}
+        # branch coverage of the model, measured on the implementation side: the sequence of
+        # filesystem calls each operation made (one model branch = one such sequence per kind)
+        paths = {}
+        for c in cases:
+            r = impl.get(c["id"])
+            if not r or not isinstance(r.get("extra"), dict):
+                continue
+            seqs = {}
+            for e in r["extra"]["trace"]:
+                seqs.setdefault(e["t"], []).append(e["at"])
+            for t, k in enumerate(c["threads"]):
+                res = r["extra"]["ops"][t]["result"]
+                key = "%s: %s -> %s" % (k["k"], " ".join(seqs.get(t, [])), res.split()[2] if res.startswith("( err") else res.split()[0] if res != "ok" else "ok")
+                paths[key] = paths.get(key, 0) + 1
+        return {"histories_checked": sum(1 for c in cases if c["id"] in impl), "call_paths": dict(sorted(paths.items()))}
 
 
 SUITES = [Main()]
